@@ -1,12 +1,64 @@
 PROP = dict(
     level="exploration",
     parts=[
+        # Part A: custom python runner (fw/c06_abi.py) + helper binary build/bin/c06_abi; replay files are *.sig (one signature)
         dict(name="abi-classification", harness="c06_abi", runner="custom", module="c06_abi", make=["build/bin/c06_abi"], replay_match=r"\.sig$",
              quick=dict(sigs_per_abi=40, light_sigs=40), thorough=dict(sigs_per_abi=1500, light_sigs=600)),
+        # Part B: rapidcheck harness props/c06.cpp (host execution through hostexec/msc)
         dict(name="args-assignment", harness="c06", replay_match=r"\.case$",
-             quick=dict(cases=24000, max_size=60, workers=8), thorough=dict(cases=640000, max_size=80, workers=16)),
+             quick=dict(cases=24000, max_size=60, workers=8), thorough=dict(cases=480000, max_size=80, workers=16)),
     ],
-    rule="TBD",
-    assumptions=[],
+    rule=("Part A: signatures of 0-32 arguments (int8..int64/uintptr, float, double, 64/128/256/512-bit vectors; 15 % variadic) generated per ABI "
+          "{SysV x86-64 (also via kCDecl and as sysv_abi on Windows), Win64 (also ms_abi on Linux), x64 vectorcall, x86-32 cdecl/stdcall/fastcall/"
+          "thiscall/vectorcall/regparm1-3, AAPCS64, Apple arm64}; for each signature a C file with one leaf probe per argument and a return probe is "
+          "compiled by clang for the matching triple/attribute and a data-flow pass over the assembly (live-in registers, stack slots relative to the "
+          "entry sp with prologue adjustments and frame-pointer realignment tracked, pointer dereferences for by-reference arguments, `ret N`) yields the "
+          "reference location; FuncDetail must agree on register/stack/indirect class, register, stack offset, size of the stack-argument area, who pops, "
+          "return register(s); once per ABI the callee-saved set (clobber-everything probe) and the red zone (leaf functions with 8..300-byte arrays) are "
+          "compared with CallConv. light-call 2/3/4 (x86-64 and x86-32): internal consistency only. A signature is non-trivial when it has >= 1 stack "
+          "argument or > 4 arguments. Part B: rapidcheck cases = calling convention {SysV64, Win64, vectorcall64, light-call2/3/4 executed; x86-32 and "
+          "AArch64 built only} x frame options (preserved FP, AVX/AVX-512, all-dirty masks, local alignment 16/32/64 = dynamic alignment, explicit SA register) "
+          "x up to 32 arguments, each with a destination: register of its group (candidates list starts with the registers that carry arguments, so "
+          "2-cycles, longer cycles, self-moves with extension arise constantly), a stack slot, a register of the other group, or none; destination "
+          "TypeIds narrower/wider/other signedness than the argument. The emitted prolog + emit_args_assignment runs on the host CPU through msc_run with "
+          "distinct values in every source register and stack word, every register and destination slot is dumped, and each destination is compared "
+          "with the argument's value extended by the rule documented at the top of props/c06.cpp. Non-trivial: the assignment contains a register cycle "
+          "or a stack source. distinct = distinct signature text (A) / distinct case text (B)."),
+    assumptions=[
+        "ASan+UBSan build with ASMJIT_ASSERT active; the helper of part A and the non-host builds / abort-prone probes of part B run in separate (forked) processes",
+        "clang 14 (-O1 -fomit-frame-pointer, -mavx512f on x86 so that 256/512-bit vectors have their AVX ABI) is the executable ABI reference; only types with an "
+        "unambiguous C counterpart are compared: no aggregates/HFA/HVA, no long double, no MMX/mask types (AsmJit's own source notes that compilers disagree on MMX); "
+        "64-bit integers are not generated for x86-32 fastcall/thiscall/vectorcall (clang and MSVC disagree), 256/512-bit vectors not for variadic SysV functions "
+        "(LLVM passes even named ones in memory, gcc does not)",
+        "probes that the assembly pass cannot interpret are skipped and counted (A:probe-unparsed), never judged",
+        "variadic functions: only the named arguments are located by clang (unnamed ones follow the same rules on SysV/Win64/AAPCS64; FuncDetail exposes nothing about AL or the "
+        "Win64 GP/XMM duplication, which x86rapass.cpp implements); Apple arm64 additionally probes the first unnamed argument through va_arg",
+        "AArch64 x18 (platform register) is ignored when comparing preserved sets: AsmJit lists it as preserved on every OS and its register allocator never hands it out; "
+        "the stack pointer is ignored in both sets",
+        "red zone: the number compared is what clang-compiled leaf functions actually address below sp (128 on SysV x86-64, 0 elsewhere incl. Apple arm64, whose ABI would "
+        "allow 128); not compared for foreign conventions on a platform (sysv_abi on Windows, ms_abi on Linux)",
+        "the size of the stack-argument area is derived from clang's per-argument layout (end of the last stack argument rounded to the slot size; >= 32 on Win64) or from `ret N`",
+        "light-call has no C counterpart: distinct locations, stack area covers its arguments, preserved set contains the documented one, return register not callee-saved; "
+        "arguments in callee-saved registers are legal there and only counted",
+        "part B places the argument values where FuncDetail says they are (part A judges those locations); 16-byte+ vector stack arguments at offsets that part A reports as "
+        "misaligned are excluded; sign/zero extension is judged by the argument's signedness, for signed -> wider unsigned only the argument's own bits are compared",
+        "part B, non-host targets (x86-32, AArch64): prolog + emit_args_assignment + epilog must return kOk or an error without assertion, sanitizer report or hang "
+        "(3 s CPU limit in a forked child); nothing more is decided there (no reference machine)",
+        "register -> register moves across groups, by-reference (indirect) sources, MMX/mask typed arguments and scalar kFloat32/kFloat64 TypeIds on vector-register destinations "
+        "are outside what emit_args_assignment supports: a clean error is accepted, only crashes are judged",
+        "known finding classes are excluded by construction in the generators (counted as exclusions) and kept alive by fixed trigger signatures / forked probe cases",
+    ],
 )
-META = dict(engine="custom", technique="", level_text="", level_note="", design_ref="DESIGN.md section 4, C06")
+META = dict(
+    engine="clang-differential (python driver) + rapidcheck with host execution",
+    technique=("part A: differential testing of FuncDetail/CallConv against clang-compiled probe functions for five target triples (data-flow analysis of the probe assembly); "
+               "part B: property-based testing of FuncArgsAssignment/emit_args_assignment with the host CPU as oracle (machine_state_call trampoline)"),
+    level_text=("Exploration: ~800 (quick) / ~20k (thorough) generated signatures across 16 ABI variants are compared location by location with what clang does, plus the "
+                "callee-saved sets and red zones of every ABI; 24k (quick) / 480k (thorough) generated argument assignments are executed (x86-64) or built (x86-32, AArch64) "
+                "and every destination is compared with its argument. Absence of failures in the explored signatures/assignments is not a proof. Twenty-odd finding classes "
+                "are tracked as known findings; the generators route around them, so the layouts behind those defects are explored only where they do not interfere."),
+    level_note=("Trusts clang 14 as ABI reference (cross-checked by hand on the documented cases of each ABI), the ~250-line assembly analysis in fw/c06_abi.py (probes it cannot "
+                "read are skipped), the stack-layout model used only to attribute deviations to known findings, hostexec/msc, and ASan/UBSan. Vector (16/32/64-byte) register "
+                "moves of part B are almost entirely masked by the known finding argsassign-vec-move-ctz-zero; cycles of three or more registers by argsassign-cycle3-unresolved."),
+    design_ref="DESIGN.md section 4, C06",
+)
